@@ -17,6 +17,8 @@ from .c01 import PARSERS, regex_pieces
 from .common import chain, deep_resolve, mentions, names_in, reachable_without_edges
 from .keys import exported
 
+from .c08 import items_to_ints_func  # noqa: E402
+
 PROPERTY = "C20"
 LEVEL = "other"
 EXPLANATION = (
@@ -219,6 +221,16 @@ class Discharger:
             ln = self._len_guard(f, n, bs)
             if ln is not None and -ln <= ival < ln:
                 return f"len({bs}) is pinned to {ln} by a dominating guard"
+            if isinstance(base, ast.Name):
+                defs = self._defs(f, base.id)
+                stores = [x for x in own_nodes(f.node) if isinstance(x, ast.Name) and x.id == base.id and isinstance(x.ctx, (ast.Store, ast.Del))]
+                if len(defs) == 1 and len(stores) == 1 and isinstance(defs[0], ast.Tuple) and not any(isinstance(e, ast.Starred) for e in defs[0].elts) and base.id not in f.params:
+                    ln2 = len(defs[0].elts)
+                    if -ln2 <= ival < ln2:
+                        return f"`{base.id}` is bound once, to a tuple literal of {ln2} elements"
+                ar = self._tuple_param_arity(f, n, base.id)
+                if ar is not None and -ar <= ival < ar:
+                    return f"`{base.id}` is an element of enumerate/zip/items(): a tuple of {ar}"
             # regex tuple
             if isinstance(base, ast.Name):
                 g = self.regex_groups_of(f, base.id)
@@ -381,7 +393,53 @@ class Discharger:
                 defs = self._defs(f, p.iter.id)
                 if defs and isinstance(defs[-1], ast.ListComp) and any(src(c) == src(defs[-1].elt) for g in defs[-1].generators for c in g.ifs) and src(defs[-1].elt) == src(defs[-1].generators[0].target):
                     return f"every element of {p.iter.id} is non-empty (filtered by truthiness)"
+            # elements of str.split() (no separator) are non-empty words
+            iters = []
+            if isinstance(p, ast.For) and src(p.target) == var:
+                iters.append(p.iter)
+            if isinstance(p, (ast.ListComp, ast.SetComp, ast.GeneratorExp, ast.DictComp)):
+                iters += [g.iter for g in p.generators if src(g.target) == var]
+            for it in iters:
+                cand = it
+                if isinstance(cand, ast.Name):
+                    defs = self._defs(f, cand.id)
+                    cand = defs[-1] if len(defs) == 1 else None
+                if isinstance(cand, ast.Call) and isinstance(cand.func, ast.Attribute) and cand.func.attr == "split" and not cand.args and not cand.keywords:
+                    return f"`{var}` is a word of {src(cand)}: str.split() without a separator yields no empty strings"
             p = getattr(p, "_parent", None)
+        return None
+
+    def _tuple_param_arity(self, f: Func, node: ast.AST, var: str) -> Optional[int]:
+        """var is the only parameter of a lambda applied element-wise (takewhile/dropwhile/filter/map/key=) to
+        enumerate(x) (pairs), zip(a, b, ...) (len = number of arguments) or d.items() (pairs)."""
+        p = getattr(node, "_parent", None)
+        lam = None
+        while p is not None and p is not f.node:
+            if isinstance(p, ast.Lambda) and [a.arg for a in p.args.args] == [var] and not p.args.vararg and not p.args.kwarg:
+                lam = p
+                break
+            p = getattr(p, "_parent", None)
+        if lam is None:
+            return None
+        call = getattr(lam, "_parent", None)
+        if isinstance(call, ast.keyword):
+            call = getattr(call, "_parent", None)
+        if not isinstance(call, ast.Call):
+            return None
+        fn = src(call.func).split(".")[-1]
+        seq = None
+        if fn in ("takewhile", "dropwhile", "filter", "map", "filterfalse") and len(call.args) == 2 and call.args[0] is lam:
+            seq = call.args[1]
+        elif fn in ("sorted", "min", "max") and call.args and any(k.arg == "key" and k.value is lam for k in call.keywords):
+            seq = call.args[0]
+        if isinstance(seq, ast.Call):
+            sfn = src(seq.func)
+            if sfn == "enumerate" and seq.args:
+                return 2
+            if sfn == "zip" and seq.args and not any(isinstance(a, ast.Starred) for a in seq.args):
+                return len(seq.args)
+            if isinstance(seq.func, ast.Attribute) and seq.func.attr == "items" and not seq.args:
+                return 2
         return None
 
     def _nonneg_index(self, f: Func, name: str) -> bool:
@@ -614,7 +672,7 @@ class Discharger:
     def _fact_port_items_nonempty(self) -> Tuple[bool, str]:
         """_line__items_to_ints raises on empty input before returning; _items_to_ports is only fed its result."""
         ctx = self.ctx
-        li = ctx.func("Port._line__items_to_ints")
+        li = items_to_ints_func(ctx)
         ok1 = False
         for p in function_paths(ctx.cfg(li)):
             if p.raises and any(src(t) == li.params[1] and not tr for t, tr in p.atoms):
